@@ -247,15 +247,22 @@ pub fn c12(ctx: &mut Ctx) {
 pub fn c13(ctx: &mut Ctx) {
     c13_large(ctx);
     for (gi, (n, inits, edges, bound)) in graphs(seed(), thorough()).into_iter().enumerate() {
-        for (pi, props) in prop_menu().into_iter().enumerate().take(3) {
+        // plus two menus with violators at SEVERAL depths and a companion property that is never discovered, so the
+        // search goes on after the first (shortest) counterexample and must not replace it by a deeper one
+        let mut menu: Vec<Vec<(Expectation, u16)>> = prop_menu().into_iter().take(3).collect();
+        menu.push(vec![(Expectation::Always, 0b00001), (Expectation::Sometimes, 0)]);
+        menu.push(vec![(Expectation::Always, 0b11111), (Expectation::Always, 0b00011), (Expectation::Sometimes, 0b11100)]);
+        for (pi, props) in menu.into_iter().enumerate() {
             let g = mk(n, &inits, &edges, bound, props.clone());
             let case = format!("c13:g{}p{}:{}", gi, pi, g.describe());
             if !ctx.want(&case) { continue; }
             let dist = g.dist();
             let (order, disc) = run_bfs_order(&g, &Opts::default());
-            let ds: Vec<usize> = order.iter().map(|s| dist[s]).collect();
-            let mut ok = ds.windows(2).all(|w| w[0] <= w[1]);
-            let mut note = format!("order {:?} distances {:?}", order, ds);
+            // a state the reference search cannot reach (e.g. outside the boundary) has no distance: that is a failure
+            let strangers: Vec<u8> = order.iter().copied().filter(|s| !dist.contains_key(s)).collect();
+            let ds: Vec<usize> = order.iter().map(|s| dist.get(s).copied().unwrap_or(usize::MAX)).collect();
+            let mut ok = strangers.is_empty() && ds.windows(2).all(|w| w[0] <= w[1]);
+            let mut note = format!("order {:?} distances {:?} unreachable-or-out-of-boundary {:?}", order, ds, strangers);
             for (i, (e, _)) in props.iter().enumerate() {
                 if let Some(p) = disc.get(NAMES[i]) {
                     let witness = |s: u8| if *e == Expectation::Always { !g.cond(i, s) } else { g.cond(i, s) };
